@@ -459,9 +459,25 @@ pub fn json_of(desc: &J, src: &Src, nodes: &[tree_sitter::Node]) -> J {
                     let _ = graph[refs[i]].attributes.add(Identifier::from(k.as_str()), val);
                 }
             }
-            for e in nd["out"].as_array().cloned().unwrap_or_default() {
-                let sink = refs[e["sink"].as_u64().unwrap() as usize];
+            // the edges are created in a scrambled order (middle first, then alternating outwards), and every edge is created a
+            // second time afterwards: neither may change the resulting edge set
+            let outs = nd["out"].as_array().cloned().unwrap_or_default();
+            let mut order: Vec<usize> = Vec::new();
+            let mid = outs.len() / 2;
+            for d in 0..=outs.len() {
+                if mid + d < outs.len() {
+                    order.push(mid + d);
+                }
+                if d > 0 && mid >= d {
+                    order.push(mid - d);
+                }
+            }
+            for &k in order.iter().chain(order.iter().rev()) {
+                let sink = refs[outs[k]["sink"].as_u64().unwrap() as usize];
                 let _ = graph[refs[i]].add_edge(sink);
+            }
+            for e in outs {
+                let sink = refs[e["sink"].as_u64().unwrap() as usize];
                 if let Some(m) = e["attrs"].as_object() {
                     for (k, v) in m {
                         let val = value_in_any(v, &mut graph, nodes).expect("value");
